@@ -512,7 +512,8 @@ async fn create_session(State(state): State<AppState>) -> impl IntoResponse {
     request_body = InputPayload,
     responses(
         (status = 202, description = "Input accepted"),
-        (status = 404, description = "Session not found")
+        (status = 404, description = "Session not found"),
+        (status = 409, description = "Session already received its input")
     )
 )]
 async fn send_input(
@@ -527,6 +528,10 @@ async fn send_input(
             None => return StatusCode::NOT_FOUND.into_response(),
         }
     };
+
+    if !handle.mark_started() {
+        return StatusCode::CONFLICT.into_response();
+    }
 
     state
         .engine
@@ -743,6 +748,8 @@ async fn thread_post_message(
     };
 
     let handle = state.engine.create_session();
+    // The run started by this post is the session's one run.
+    let _ = handle.mark_started();
     let session_id = handle.session_id.clone();
     {
         let mut sessions = state.sessions.lock().await;
